@@ -215,6 +215,24 @@ def shareReplay2Hot : Cfg := { conn := .replay 2, flags := ⟨true, false, false
 
 theorem shareHot_safe : shareHot.Safe := Cfg.Hot.safe (fun _ => rfl)
 
+/-- **late release** (re-entrant source / concurrency; `nrun` = runs with events nested inside the
+    source's `Subscribe`, K-tied like the plain ones): subscriber 0 creates generation 0; inside the
+    source's `Subscribe` the source errors (reset: generation 0 is gone, subscriber 0's reference
+    still counted) and subscriber 1 comes (creates generation 1) and goes (refCount 2 → 1); then
+    subscriber 0's `Subscribe` returns and its teardown gives the last reference back — resetting the
+    generation it captured. Nobody listens, `ResetOnRefCountZero` is set, no nil dereference happened,
+    and generation 1's upstream subscription is still live. The universal theorems above quantify
+    over plain event sequences (`nrun_plain`); this is outside them and is a finding of the search. -/
+theorem lateRelease_witness :
+    openSubs (nrun shareHot [.subNested [.src (.error (.user 1)), .sub, .unsub 1], .plain (.unsub 0)]) = [] ∧
+    (nrun shareHot [.subNested [.src (.error (.user 1)), .sub, .unsub 1], .plain (.unsub 0)]).live = 1 ∧
+    (nrun shareHot [.subNested [.src (.error (.user 1)), .sub, .unsub 1], .plain (.unsub 0)]).panics = 0 ∧
+    (nrun shareHot [.subNested [.src (.error (.user 1)), .sub, .unsub 1], .plain (.unsub 0)]).refCount = 0 := by decide
+
+/-- plain runs are what the driver executes for plain case lines -/
+theorem plain_runs (cfg : Cfg) (evs : List Event) : nrun cfg (evs.map NEvent.plain) = run cfg evs := nrun_plain cfg evs
+
+
 -- two subscribers share one upstream subscription and see the same values from when they joined
 example : traces (run shareHot [.sub, .src (.next 1), .sub, .src (.next 2), .unsub 0, .src (.next 3)])
     = [[.next 1, .next 2], [.next 2, .next 3]] := by decide
@@ -298,6 +316,8 @@ end Ro.C11
 #print axioms Ro.C11.shareOverEmpty_not_safe
 #print axioms Ro.C11.leak_witness
 #print axioms Ro.C11.fixed_witness
+#print axioms Ro.C11.lateRelease_witness
+#print axioms Ro.C11.plain_runs
 #print axioms Ro.C11.connectable_upstream_at_most_one
 #print axioms Ro.C11.connectable_nothing_before_connect
 #print axioms Ro.C11.connectable_connect_idempotent
